@@ -379,7 +379,20 @@ void run_case(Choices &c, Ctx &ctx)
 			v = a;
 			ctx.label("long_double_text");
 		}
+		// some trees also carry doubles with a per-object format (json_object_double_to_json_string + format as user data)
+		int perobj = c.coin(25) ? 1 + (int)c.pickn(4) : 0;
+		auto decorate = [&](json_object *t) {
+			static const char *pf[] = {"", "%.4f", "%+.2f", "%12.3f", "%.6e"};
+			if (!perobj || !t || json_object_get_type(t) != json_type_array)
+				return;
+			json_object *d = json_object_new_double(-1234.5625);
+			json_object_set_serializer(d, json_object_double_to_json_string, (void *)pf[perobj], nullptr);
+			json_object_array_add(t, d);
+		};
 		json_object *j = build(v);
+		decorate(j);
+		if (perobj && j && json_object_get_type(j) == json_type_array)
+			ctx.label("per_object_double_format");
 		int flags = (int)c.range(0, 63);
 		bool custom = c.coin(30);
 		if (custom)
@@ -400,6 +413,7 @@ void run_case(Choices &c, Ctx &ctx)
 			}
 			// a fresh tree too (no cached buffer)
 			json_object *j2 = build(v);
+			decorate(j2);
 			std::string got2 = json_object_to_json_string_ext(j2, flags);
 			json_object_put(j2);
 			set_regime(0);
